@@ -571,6 +571,7 @@ class BatchResponse(AbstractResponse):
         Extends the batch with the `responses`.
         """
 
+        responses = list(responses)  # the iterable may be a one-shot one
         self._add_ids(*(resp.id for resp in responses))
         self._responses.extend(responses)
 
@@ -680,6 +681,7 @@ class BatchRequest(AbstractRequest):
         Extends a batch with `requests`.
         """
 
+        requests = list(requests)  # the iterable may be a one-shot one
         self._add_ids(*(resp.id for resp in requests))
         self._requests.extend(requests)
 
